@@ -155,6 +155,9 @@ def _disk_case(desc, ctx):
         bmode = "circle"
     else:
         bmode = mode
+        if rng.random() < 0.3:
+            kwargs["custom_boundary"] = None  # the documented default given explicitly (what a wrapper forwarding every option does)
+            ctx.cls("custom_boundary:explicit_None")
     if rng.random() < 0.5:
         # history: the same mesh object was embedded before with the other weighting (and other storage); the second run must not inherit anything
         ctx.cls("history:embedded_before_with_other_weights")
